@@ -405,6 +405,10 @@ class RealStopping:
           chart.stop()
           me.marks["handler_stopped"] = len(d.log)
         return rs.HANDLED
+      if e.signal == signals.STOP_ACTIVE_OBJECT_SIGNAL:
+        # the stop request itself dispatched as an ordinary event (a full queue rotated it to the front after the object's thread had
+        # looked at the front): a run-to-completion step like any other, the model counts it too
+        me.log.append((e.signal_name, len(d.log)))
       chart.temp.fun = chart.top
       return rs.SUPER
     self.obj = obj = ao.ActiveObject(name="replay")
